@@ -154,11 +154,15 @@ func (s *VerifSession) PromptContinue() bool {
 
 // verifCallbackProgress is a progressCallback that hands every call, one at a time, to a function.
 type verifCallbackProgress struct {
-	mu sync.Mutex
-	f  func(kind string, num int64, name string)
+	mu     sync.Mutex
+	f      func(kind string, num int64, name string)
+	before func(kind string, num int64, name string)
 }
 
 func (c *verifCallbackProgress) call(kind string, num int64, name string) {
+	if c.before != nil {
+		c.before(kind, num, name) // not serialised: the caller's own goroutine, at the moment it makes the call
+	}
 	c.mu.Lock()
 	defer c.mu.Unlock()
 	c.f(kind, num, name)
@@ -184,6 +188,15 @@ func (c *verifCallbackProgress) setPause(pausing bool) {
 // transfer makes them: kind N onNum, M onName, Z onSize, S onStep, D onDone, P setPreSize.
 func VerifRunFilesPair(paths []string, dest string, protocol int, callbackOnSender bool,
 	onCall func(kind string, num int64, name string)) (errText string) {
+	return VerifRunFilesPairLag(paths, dest, protocol, callbackOnSender, onCall, nil)
+}
+
+// VerifRunFilesPairLag is VerifRunFilesPair with a second function, before, that is called at
+// the ENTRY of every callback in the goroutine that makes it, outside the serialisation: it sees
+// the attempts as they happen (two callbacks in flight at once = the transfer does not order
+// them) and may block, which makes that goroutine lag the way a slow terminal does.
+func VerifRunFilesPairLag(paths []string, dest string, protocol int, callbackOnSender bool,
+	onCall func(kind string, num int64, name string), before func(kind string, num int64, name string)) (errText string) {
 	defer verifRecover(&errText)
 	files, err := checkPathsReadable(paths, false)
 	if err != nil {
@@ -203,7 +216,7 @@ func VerifRunFilesPair(paths []string, dest string, protocol int, callbackOnSend
 		x.transferConfig.Timeout = 10
 	}
 	var sendProgress, recvProgress progressCallback
-	cb := &verifCallbackProgress{f: onCall}
+	cb := &verifCallbackProgress{f: onCall, before: before}
 	if callbackOnSender {
 		sendProgress = cb
 	} else {
